@@ -1113,6 +1113,50 @@ static void adaptive_select_sweep(void) {
     }
 }
 
+/* adaptive round trip of a low-cardinality array whose encoding exceeds 2^20 bytes (plain heap buffers: the guard
+ * slots are sized for the corpus) */
+static void huge_adaptive(void) {
+    if (!vh_section_begin("adaptive/huge")) {
+        return;
+    }
+    if (!vh_case()) {
+        return;
+    }
+    const size_t n = 1200000;
+    uint64_t *v = malloc(n * 8), *out = malloc(n * 8);
+    uint8_t *enc = malloc(varintAdaptiveMaxSize(n) + 64);
+    for (size_t i = 0; i < n; i++) {
+        v[i] = (i % 3) * 1000;
+    }
+    cur_desc = "n=1200000 over 3 distinct values (encoding > 2^20 bytes)";
+    /* trigger is a function of the input only: long low-cardinality array */
+    cur_trigger = "low_cardinality_encoding_over_1MiB";
+    varintAdaptiveMeta m;
+    memset(&m, 0, sizeof m);
+    size_t wrote = 0, r = 0;
+    if (LIBCALL("adaptive.Encode", "huge", wrote = varintAdaptiveEncode(enc, v, n, &m))) {
+        if (wrote > varintAdaptiveMaxSize(n)) {
+            AFAIL("adaptive.Encode", "size_underestimate", "%s: wrote %zu > bound %zu", cur_desc, wrote, varintAdaptiveMaxSize(n));
+        }
+        memset(out, 0xAB, n * 8);
+        if (LIBCALL("adaptive.Decode", "huge", r = varintAdaptiveDecode(enc, out, n, NULL))) {
+            size_t at = 0;
+            if (r != n || cmp_u64(out, v, n, &at)) {
+                AFAIL("adaptive.Decode", "roundtrip_mismatch", "%s: auto->%s wrote %zu bytes, decode returned %zu of %zu values", cur_desc, ENCNAME[enc[0] & 7], wrote, r, n);
+            }
+        }
+        char ck[64];
+        snprintf(ck, sizeof ck, "adaptive/huge/auto->%s", ENCNAME[enc[0] & 7]);
+        vh_class(ck, "%s: %zu bytes", cur_desc, wrote);
+    }
+    cur_trigger = "untagged";
+    vh_count("cases", 1);
+    vh_count("elements", n);
+    free(v);
+    free(out);
+    free(enc);
+}
+
 /* ------------------------------------------------------------------ driver */
 static int u64cmp_corpus(const void *a, const void *b);
 static int u32cmp_corpus(const void *a, const void *b);
@@ -1192,6 +1236,9 @@ int main(int argc, char **argv) {
     corpus_end(&it);
     if (M06) {
         adaptive_select_sweep();
+        if (vh_thorough) {
+            huge_adaptive();
+        }
     }
     vh_write_out();
     return 0;
